@@ -1,7 +1,7 @@
 (* One entry point for the OCaml runner: op name and byte-string arguments
    in, (result bytes, tag text) out.  All structure is decoded here, in Coq. *)
 From Coq Require Import NArith ZArith List Bool String.
-From GJ Require Import Base.Bytes Base.Show Model.Int Model.StrEnc Model.StrDec Model.Compact Model.Iface Model.Path Model.KeyBitmap Spec.Json Gen.Resets Model.Mem Base.TypeAddrBase Gen.TypeAddr Model.TypeCache Model.Stream Model.StreamInst Model.Enc Model.EncIndent Gen.Query Model.Query Model.Decode Model.EncTyped Model.Skip Model.PathEval Model.PathTags Gen.SliceShape Model.SlicePool Model.FieldRes.
+From GJ Require Import Base.Bytes Base.Show Model.Int Model.StrEnc Model.StrDec Model.Compact Model.Iface Model.Path Model.KeyBitmap Spec.Json Gen.Resets Model.Mem Base.TypeAddrBase Gen.TypeAddr Model.TypeCache Model.Stream Model.StreamInst Model.Enc Model.EncIndent Gen.Query Model.Query Model.Decode Model.EncTyped Model.Skip Model.PathEval Model.PathTags Gen.SliceShape Model.SlicePool Model.FieldRes Model.Cycle Gen.Tables.
 Import ListNotations.
 Open Scope N_scope.
 Open Scope string_scope.
@@ -148,6 +148,15 @@ Definition dispatch (op : list N) (args : list (list N)) : list N * list N :=
     (match parse_struct (arg 0 args) with
      | Some fs => sep_by 44 (map (fun m => fst m ++ [61] ++ show_path (snd m)) (members fs))
      | None => str "unparsed"
+     end, [])
+  else if list_eqb op (str "c08.cycle") then
+    (* arg0: adjacency lists (successors separated by commas, nodes by semicolons), arg1: the root *)
+    (let adj := map (fun nd => match nd with
+                               | [] => []
+                               | _ => map (fun f => N.to_nat (dec_N f)) (split_on 44 nd)
+                               end) (split_on 59 (arg 0 args)) in
+     match encode_graph (Z.to_nat enc_StartDetectingCyclesAfter) (succ_of adj) (List.length adj) (N.to_nat (dec_N (arg 1 args))) with
+     | WOk => str "ok" | WCycle => str "cycle" | WFuel => str "fuel"
      end, [])
   else if list_eqb op (str "c15.bitmap") then
     (* arg0 = sorted lower-cased names separated by LF, arg1 = decoded key *)
